@@ -1,5 +1,6 @@
 import LinOp.Core.Parse
 import LinOp.C01.Model
+import LinOp.C01.BlockDim
 /-! Line-protocol driver for the C01 model.  One case per line: `<cmd> <args…>`; matrices travel as
 `r1c1,r1c2;r2c1,…`, stacks of matrices as several words.  Output: one canonical line. -/
 open LinOp LinOp.C01 LinOp.Parse
@@ -41,6 +42,10 @@ def showShape (o : Option (List Nat)) : String :=
 
 def run (ws : List String) : String :=
   match ws with
+  | ["blockperm", nb, bd] =>
+    match nb.toNat?, bd.toInt? with
+    | some nb, some bd => showList toString (blockMovePerm nb (blockDimPos nb bd).toNat)
+    | _, _ => "bad"
   | ["bshape", a, b] =>
     match parseNats? a, parseNats? b with
     | some sa, some sb => showShape (broadcastShape sa sb)
